@@ -2,7 +2,7 @@
    range.  Only the property theorems, each closed by [exact]; proofs live in
    Midi/MidiProofs.v, the model in Midi/MidiModel.v, the Spec in Midi/MidiSpec.v. *)
 From Coq Require Import List ZArith QArith.
-From RtoscV Require Import Midi.MidiModel Midi.MidiSpec Midi.MidiProofs Midi.MidiFloat Midi.MidiProto Midi.MidiNrt Midi.MidiSilent Midi.MidiInv Midi.MidiRefine.
+From RtoscV Require Import Midi.MidiModel Midi.MidiSpec Midi.MidiProofs Midi.MidiFloat Midi.MidiProto Midi.MidiNrt Midi.MidiSilent Midi.MidiInv Midi.MidiRefine Midi.MidiRound.
 Import ListNotations.
 Local Open Scope Z_scope.
 
@@ -36,25 +36,33 @@ Theorem C20_refuted :
     quiescent evs tr = false.
 Proof. exact d19_refuted. Qed.
 
-(* the value a callback built by generateNewBijection sends lies within the
-   port's [min,max] ('i' ports: the integer parts) and carries the port's
-   address.  _partial: the IEEE rounding facts rounding_ok (monotone, exact on
-   the bounds and 0, relative error on the two inexact operations) are
-   hypotheses; the executable model uses rf = r24, rd = r53.
-   Full statement: the same with rf := r24, rd := r53 and no rounding_ok. *)
-Theorem C20_bijection_range_partial : forall rf rd p a x,
-  rounding_ok rf rd {| bmin := pmin p; bmax := pmax p |} ->
-  (dy2Q (pmin p) <= dy2Q (pmax p))%Q -> 0 <= x < 16384 ->
-  maddr (cb_gen rf rd (mk_cb p a) x) = a /\
-  mval_in_range p (mvalue (cb_gen rf rd (mk_cb p a) x)).
-Proof. exact cb_range. Qed.
+(* Within the parameter's [min,max] and monotone - for the EXECUTABLE model
+   (run_cb = the callbacks with rf := r24, rd := r53), no rounding hypothesis:
+   MidiRound proves rnd p emin = Flocq's round-to-nearest-even onto FLT(emin,p)
+   (rnd_is_round) and derives rounding_ok from round_le, round_generic,
+   relative_error_N_FLT and FLT_format_plus_small (these go through Flocq and
+   the standard library's real numbers: see Print Assumptions).  float24 = a
+   float (|m| < 2^24, e >= -149); every binary32 pattern decodes to one
+   (float24_of_bits).  'i' ports: between the integer parts of the bounds. *)
+Theorem C20_bijection_range : forall p a x,
+  float24 (pmin p) -> float24 (pmax p) -> (dy2Q (pmin p) <= dy2Q (pmax p))%Q -> 0 <= x < 16384 ->
+  maddr (run_cb (mk_cb p a) x) = a /\ mval_in_range p (mvalue (run_cb (mk_cb p a) x)).
+Proof. exact cb_range_exec. Qed.
 
-(* ... and grows with the 14-bit input (same hypotheses) *)
-Theorem C20_bijection_monotone_partial : forall rf rd p a x1 x2,
-  rounding_ok rf rd {| bmin := pmin p; bmax := pmax p |} ->
-  (dy2Q (pmin p) <= dy2Q (pmax p))%Q -> 0 <= x1 -> x1 <= x2 -> x2 < 16384 ->
-  mval_le (mvalue (cb_gen rf rd (mk_cb p a) x1)) (mvalue (cb_gen rf rd (mk_cb p a) x2)).
-Proof. exact cb_monotone. Qed.
+(* grows with the 14-bit input ... *)
+Theorem C20_bijection_monotone : forall p a x1 x2,
+  float24 (pmin p) -> float24 (pmax p) -> (dy2Q (pmin p) <= dy2Q (pmax p))%Q ->
+  0 <= x1 -> x1 <= x2 -> x2 < 16384 ->
+  mval_le (mvalue (run_cb (mk_cb p a) x1)) (mvalue (run_cb (mk_cb p a) x2)).
+Proof. exact cb_monotone_exec. Qed.
+
+(* ... and with the 7-bit value v of the coarse or of the fine controller *)
+Theorem C20_bijection_monotone_7bit : forall p a c v1 v2 old,
+  float24 (pmin p) -> float24 (pmax p) -> (dy2Q (pmin p) <= dy2Q (pmax p))%Q ->
+  0 <= v1 -> v1 <= v2 -> v2 < 128 -> 0 <= old < 16384 ->
+  mval_le (mvalue (run_cb (mk_cb p a) (compose14 c v1 old)))
+          (mvalue (run_cb (mk_cb p a) (compose14 c v2 old))).
+Proof. exact cb_monotone_7bit. Qed.
 
 (* Learning in a quiescent history.  quiescent (MidiSpec) = no midi-bind that
    is not the answer to a midi-use-CC is sent while a controller is pending,
